@@ -302,10 +302,17 @@ def child_main(jobfile):
         # what the caller of lint_files can see when it returns
         at_return = {'junit': read_junit(outs['junit']) if 'junit' in outs else [],
                      'violations': read_violations(outs['violations']) if 'violations' in outs else []}
-        # Hygiene between the runs of this process: a handler copy that lint_files leaves behind in cyclic
-        # garbage (see notes/C42.md) still owns an unflushed file buffer; collect it now so that the worker
-        # processes forked by the NEXT run cannot inherit and re-flush it. (at_return was read before this.)
+        # Hygiene between the runs of this process (after at_return was read): in a parallel run lint_files
+        # leaves the last handler's LazyTextfile copy behind, open and unflushed, in cyclic garbage (see
+        # notes/C42.md). Close such leftovers deterministically -- as the most favourable interpreter exit would --
+        # so that (a) the `final` outputs do not depend on the order in which the garbage collector finalises
+        # the io objects and (b) worker processes forked by the NEXT run cannot inherit and re-flush the buffer.
         import gc
+        from loki.lint.reporter import LazyTextfile
+        for o in gc.get_objects():
+            if isinstance(o, LazyTextfile) and o.file_handle:
+                o.file_handle.close()
+                o.file_handle = None
         gc.collect()
         probe = []
         if os.path.exists(probe_out):
